@@ -153,6 +153,25 @@ Theorem edit_uploads_only_disturbed : forall chunker,
 Proof. exact edit_uploads_only_disturbed_lemma. Qed.
 Print Assumptions edit_uploads_only_disturbed.
 
+(* ... and at the level of a whole backup: one file of the source edited, all other files and the
+   old version already indexed: the only DATA blobs handed to the packer are chunks between the cuts *)
+Theorem edit_backup_uploads_only_disturbed : forall chunker,
+  chunker_partition chunker -> resync_after_common_cut chunker ->
+  forall (tid : list entry -> id) (h : bytes -> id) (g : gindex)
+         pre P' X Y S1 S2 rest la ra lb rb its1 its2 nm m r,
+  let A := concat pre ++ P' ++ X ++ S1 ++ S2 in
+  let B := concat pre ++ P' ++ Y ++ S1 ++ S2 in
+  chunker A = pre ++ rest -> P' ++ X ++ S1 ++ S2 <> [] ->
+  chunker A = la ++ ra -> concat la = concat pre ++ P' ++ X ++ S1 ->
+  chunker B = lb ++ rb -> concat lb = concat pre ++ P' ++ Y ++ S1 ->
+  (forall c, In c (chunker A) -> ghas g Data (h c) = true) ->
+  (forall c, In c (data_of (its1 ++ its2)) -> ghas g Data c = true) ->
+  archive tid g (its1 ++ Other nm m (map h (chunker B)) :: its2) = Some r ->
+  exists mb, chunker B = pre ++ mb ++ chunker S2 /\ concat mb = P' ++ Y ++ S1 /\
+             forall c, In (Data, c) (r_sent r) -> In c (map h mb).
+Proof. exact edit_backup_uploads_only_disturbed_lemma. Qed.
+Print Assumptions edit_backup_uploads_only_disturbed.
+
 (* the chunk-level `file_sends` above is what the archiver hands over when it processes that file *)
 Theorem file_step_sends : forall tid g a nm m (h : bytes -> id) (chunks : list bytes) a',
   astep tid g a (Other nm m (map h chunks)) = Some a' ->
